@@ -36,9 +36,79 @@ pub fn race_cases(s: &mut Session, tier: &str, rng: &mut Rng) {
     }
 }
 
+/// the order the binding tables sort their keys by (`impl Ord for Address`): every pair of a pool built for
+/// coincidences (equal ports with different hosts, equal hosts with different ports, a name whose bytes are an
+/// address's octets, both families) is compared both ways by the real code; the answers must form a total order -
+/// antisymmetric, equal exactly for equal addresses, transitive over every triple
+pub fn address_order_cases(s: &mut Session, tier: &str, rng: &mut Rng) {
+    let thorough = tier == "thorough";
+    s.begin_case("address-order");
+    let mut pool: Vec<String> = vec![];
+    let ports = [52u16, 53, 54, 8000, 8500, 9000];
+    let v4s: [[u8; 4]; 5] = [[1, 2, 3, 4], [1, 2, 3, 5], [127, 0, 0, 1], [127, 0, 0, 2], [200, 0, 0, 1]];
+    let mut v6a = [0u8; 16];
+    v6a[15] = 1;
+    let mut v6b = [0u8; 16];
+    v6b[..4].copy_from_slice(&[1, 2, 3, 4]);
+    let mut v6c = [0xffu8; 16];
+    v6c[0] = 100;
+    let names: Vec<Vec<u8>> = vec![vec![1, 2, 3, 4], vec![1, 2, 3], vec![127, 0, 0, 1], b"a".to_vec(), b"x".to_vec(), b"localhost".to_vec(), v6a.to_vec(), vec![150], vec![]];
+    let n_ports = if thorough { ports.len() } else { 3 };
+    for k in 0..(if thorough { 40 } else { 22 }) {
+        let p = ports[(rng.below(n_ports as u64) as usize + if k % 2 == 0 { 0 } else { 3 }) % ports.len()];
+        let a = match rng.below(3) {
+            0 => format!("4:{}:{}", hex(&rng.pick(&v4s[..])[..]), p),
+            1 => format!("6:{}:{}", hex(&rng.pick(&[v6a, v6b, v6c][..])[..]), p),
+            _ => {
+                let n = rng.pick(&names[..]);
+                format!("d:{}:{}", if n.is_empty() { "-".to_owned() } else { hex(n) }, p)
+            }
+        };
+        if !pool.contains(&a) {
+            pool.push(a);
+        }
+    }
+    // the three of the repaired defect, always
+    for a in ["4:7f000001:9000", "4:7f000002:8000", "d:78:8500", "d:01020304:53", "4:01020304:53"] {
+        if !pool.contains(&a.to_owned()) {
+            pool.push(a.to_owned());
+        }
+    }
+    let n = pool.len();
+    let mut m = vec![vec![0i8; n]; n];
+    for i in 0..n {
+        for j in 0..n {
+            let r = s.run(&format!("addr.cmp {} {}", pool[i], pool[j]));
+            m[i][j] = match r.as_str() { "lt" => -1, "eq" => 0, "gt" => 1, _ => 9 };
+        }
+    }
+    let mut bad = vec![];
+    for i in 0..n {
+        for j in 0..n {
+            if m[i][j] == 9 || m[i][j] != -m[j][i] {
+                bad.push(format!("not antisymmetric: {} vs {}", pool[i], pool[j]));
+            }
+            if (m[i][j] == 0) != (i == j) {
+                bad.push(format!("equal by the order, different addresses (or the reverse): {} vs {}", pool[i], pool[j]));
+            }
+            for k in 0..n {
+                if m[i][j] == -1 && m[j][k] == -1 && m[i][k] != -1 {
+                    bad.push(format!("not transitive: {} < {} < {} but not {} < {}", pool[i], pool[j], pool[k], pool[i], pool[k]));
+                }
+            }
+        }
+    }
+    s.count(&format!("address-order:pool:{}", n));
+    if let Some(b) = bad.first() {
+        s.oracle_fail("address-order", &format!("the order of addresses is not a total order ({} violations), e.g. {}", bad.len(), b));
+    }
+    s.mark_nontrivial();
+}
+
 pub fn generate(s: &mut Session, tier: &str, rng: &mut Rng) {
     let thorough = tier == "thorough";
     race_cases(s, tier, rng);
+    address_order_cases(s, tier, rng);
     // ---- codec level: concurrent udp sessions through the shared cipher cache
     for (cipher, keylen) in SS_CIPHERS {
         s.begin_case(&format!("udp-sessions:{}", cipher));
